@@ -4,6 +4,7 @@ C17.a  definite initialisation of every scalar member of every FFSM2 record
 C17.b  user-provided copy/move constructors copy every base and member from the same base/member
 C17.c  copy/move construction of an automatically activated machine never re-enters (no initialEnter)
 C17.d  no mutable namespace-scope / static state; externals are deterministic
+C17.f  copy/move construction and assignment write only the new object: the source (and so its later behaviour) is left as it was
 C17.e  no value depends on an address: no pointer<->integer casts, no pointer ordering / subtraction / identity tests other than null
 """
 from lint import facts, records, ir
@@ -46,6 +47,8 @@ def run(run):
         run.guard('no mutable statics', records.no_mutable_statics, run, 'C17.d', F)
         run.guard('externals', records.externals, run, 'C17.d', F)
         run.guard('address independence', records.address_independence, run, 'C17.e', F)
+        from lint import effects as _eff
+        run.guard('source untouched', records.source_untouched, run, 'C17.f', F, _eff.Effects(F))
         if w == 'w_core':
             run.guard('copy does not reenter', copy_does_not_reenter, run, F)
         facts.drop(F)
@@ -53,6 +56,7 @@ def run(run):
     run.floor('C17.b', 6)
     run.floor('C17.c', 2)
     run.floor('C17.e', 4)
+    run.floor('C17.f', 20)
     run.explanation = (
         'Record-level rules over every FFSM2 class instantiated by witnesses w_core and w_pay in each feature '
         'configuration: definite initialisation of scalar members by every constructor, member-by-member coverage of '
